@@ -396,7 +396,27 @@ class IkeSa(object):
         else:
             return self._process_response(message)
 
+    def check_pending_events(self):
+        """ Serves the events that were queued while the IKE_SA was busy, once it is idle again
+        """
+        while self.state == IkeSa.State.ESTABLISHED and self.pending_events:
+            handler, *args = self.pending_events.pop(0)
+            self.log_debug('Processing pending event')
+            request = handler(*args)
+            if request:
+                return request
+        return None
+
+    def _hand_over_pending_events(self):
+        # the events queued while this IKE_SA was being rekeyed are served by its successor
+        self.new_ike_sa.pending_events += [(getattr(self.new_ike_sa, handler.__name__), *args)
+                                           for handler, *args in self.pending_events]
+        self.pending_events = []
+
     def process_acquire(self, tsi, tsr, index):
+        # a rekeyed IKE_SA does not start exchanges any more: its successor does
+        if self.state in (IkeSa.State.REKEYED, IkeSa.State.DEL_AFTER_REKEY_IKE_SA_REQ_SENT):
+            return self.new_ike_sa.process_acquire(tsi, tsr, index)
         if self.state not in (IkeSa.State.INITIAL, IkeSa.State.ESTABLISHED):
             self.log_debug('Cannot process acquire while waiting for a response. Queuing')
             self.pending_events.append((self.process_acquire, tsi, tsr, index))
@@ -1238,6 +1258,7 @@ class IkeSa(object):
                     old_sk_d=self.ike_sa_keyring.sk_d, old_prf=self.my_crypto.prf)
                 self.new_ike_sa.child_sas = self.child_sas
                 self.child_sas = []
+                self._hand_over_pending_events()
                 self.state = IkeSa.State.REKEYED
                 self.new_ike_sa.state = IkeSa.State.ESTABLISHED
                 return self.generate_delete_ike_sa_request()
